@@ -1236,6 +1236,21 @@ def eq_dict(p, hb, ob, rel, typed):
     return schema.dict(keys)
 
 
+def eq_dict_pos(p, hb, ob, pos):
+    """like eq_dict, with the `...: ...` entry at a chosen position (0 none, 1 first, 2 after 'a', 3 last): dict
+    equality ignores the order of the declared keys, so schemas differing only in `pos` 1..3 are equal."""
+    items = [("a", schema.int.min(p))]
+    if hb:
+        items.append((optional("b") if ob else "b", schema.none))
+    if pos == 1:
+        items.insert(0, (..., ...))
+    elif pos == 2:
+        items.insert(1, (..., ...))
+    elif pos == 3:
+        items.append((..., ...))
+    return schema.dict(dict(items))
+
+
 def eq_list(form, p, hl, n):
     e = schema.int.min(p)
     if form == 0:
